@@ -36,6 +36,124 @@ fn check(who: &str, idx: usize, m: &IpcSharedMemory, want: &[u8]) {
     }
 }
 
+fn make_region(sp: &Value) -> (IpcSharedMemory, Vec<u8>) {
+    let want = expect_bytes(sp);
+    let g = if sp["fill"].is_u64() { IpcSharedMemory::from_byte(sp["fill"].as_u64().unwrap() as u8, want.len()) } else { IpcSharedMemory::from_bytes(&want) };
+    (g, want)
+}
+
+/// Forked-child family: "received in the same or a forked process". The child is a real fork()
+/// of the simulated program (a copy of the library's statics and of the parent's mappings), see
+/// `sim::fork_real`.
+fn run_fork(p: &Value) -> Outcome {
+    let mut out = Outcome::default();
+    start_sim(p);
+    let pre: Vec<Value> = p["regs"].as_array().cloned().unwrap_or_default().into_iter().take(6).collect();
+    let child_specs: Vec<Value> = p["fork"]["child"].as_array().cloned().unwrap_or_default().into_iter().take(4).collect();
+    let post: Vec<Value> = p["fork"]["post"].as_array().cloned().unwrap_or_default().into_iter().take(4).collect();
+    let hold = p["fork"]["hold"].as_bool().unwrap_or(true);
+    let pre2 = pre.clone();
+    sim::spawn("parent", Some(2), move || {
+        // before the fork: regions exist (the process id is cached, the name counter has advanced),
+        // and a message carrying clones of them is queued on a channel
+        let mut mine = vec![];
+        for (i, sp) in pre2.iter().enumerate() {
+            let (g, want) = make_region(sp);
+            check("creator", i, &g, &want);
+            mine.push((g, want));
+        }
+        let (tx, rx) = ipc::channel::<M5>().unwrap();
+        let m = M5 { regs: mine.iter().enumerate().map(|(i, (g, _))| (i as u32, g.clone())).collect(), pad: vec![], extra: None };
+        match tx.send(m) {
+            Ok(()) => hist::log("send.ok", 0, 0, 0, ""),
+            Err(e) => hist::log("send.err", 0, 0, 0, &e.to_string()),
+        };
+        let inherited: Vec<(IpcSharedMemory, Vec<u8>)> = mine.iter().map(|(g, w)| (g.clone(), w.clone())).collect();
+        let cs = child_specs.clone();
+        let child = sim::fork_real(hold, move || {
+            // ---- in the forked child (a real process, outside the simulation) ----
+            for (g, w) in inherited.iter() {
+                if &g[..] != &w[..] {
+                    return 11;
+                }
+            }
+            match rx.recv() {
+                Ok(m) => {
+                    if m.regs.len() != inherited.len() {
+                        return 13;
+                    }
+                    for (k, (i, g)) in m.regs.iter().enumerate() {
+                        if *i as usize != k || &g[..] != &inherited[k].1[..] {
+                            return 12;
+                        }
+                    }
+                },
+                Err(_) => return 14,
+            }
+            for sp in cs.iter() {
+                let (g, want) = make_region(sp);
+                if &g[..] != &want[..] || &g.clone()[..] != &want[..] {
+                    return 15;
+                }
+            }
+            0
+        });
+        let parked = child.wait_parked();
+        hist::log("child.parked", parked as i64, 0, 0, "");
+        // the parent goes on creating regions while the child is inside its own creation
+        for (i, sp) in post.iter().enumerate() {
+            let (g, want) = make_region(sp);
+            check("creator-after-fork", 100 + i, &g, &want);
+        }
+        let (code, msg) = child.wait();
+        hist::log("child.exit", code as i64, 0, 0, &msg);
+        for (i, (g, w)) in mine.iter().enumerate() {
+            check("creator-after-child-exit", i, g, w);
+        }
+        drop(tx);
+        hist::log("parent.done", 0, 0, 0, "");
+    });
+    let blocked = sim::settle();
+    let evs = hist::events();
+    for e in evs.iter().filter(|e| e.op == "mismatch") {
+        let who = e.s.split(':').next().unwrap_or("?").to_string();
+        out.viol(&format!("contents:{}", who), format!("region {}: has length {} (expected {}); {}", e.a, e.b, e.c, e.s));
+    }
+    if let Some(e) = evs.iter().find(|e| e.op == "send.err") {
+        out.viol("send-failed:send", e.s.clone());
+    }
+    if let Some(e) = evs.iter().find(|e| e.op == "child.exit") {
+        let what = match e.a {
+            0 => None,
+            11 => Some("a region inherited across fork() reads differently in the child".to_string()),
+            12 => Some("a region received by the forked child differs from what was sent (or arrived out of order)".to_string()),
+            13 => Some("the forked child received a different number of regions".to_string()),
+            14 => Some("the forked child could not receive the queued message".to_string()),
+            15 => Some("a region created in the forked child reads back wrong".to_string()),
+            101 => Some(format!("the forked child panicked: {}", e.s)),
+            c => Some(format!("the forked child ended abnormally (status {})", c)),
+        };
+        if let Some(w) = what {
+            let short: String = e.s.chars().filter(|c| !c.is_ascii_digit()).take(50).collect();
+            out.viol(&format!("forked-child:{}{}", e.a, if e.a == 101 { format!(":{}", short) } else { String::new() }), w);
+        }
+    }
+    for b in &blocked {
+        if b.label == "parent" {
+            out.viol("hang:parent", format!("parent blocked forever in {}", b.in_call));
+        }
+    }
+    for pn in hist::panics() {
+        out.viol(&hist::panic_sig(pn), format!("panic in [{}]: {} at {}", pn.label, pn.msg, pn.loc));
+    }
+    out.nontrivial = true;
+    out.probe("forked_children", 1);
+    out.probe("forked_child_parked_in_creation", evs.iter().any(|e| e.op == "child.parked" && e.a == 1) as u64);
+    out.probe("comparisons", evs.iter().filter(|e| e.op == "match").count() as u64);
+    out.sample = json!({"family": "fork", "pre": pre.len(), "hold": hold});
+    out
+}
+
 impl Scenario for C05S {
     fn id(&self) -> &'static str {
         "C05"
@@ -52,11 +170,24 @@ impl Scenario for C05S {
         }
     }
     fn rule(&self) -> &'static str {
-        "case = 1..8 regions per message, each from_bytes(random contents) or from_byte(fill, len), lengths dense around 0, 1, 7/8/9, page-1/page/page+1, 2 pages +-1 plus random up to 256 KiB (quick) / 32 MiB (thorough), cloned 0..3 times before sending, in random order, optionally next to an endpoint and a multi-packet data part; received by a thread or a sim-process; contents compared in the creator, every clone, the receiver, and again after the sender's copies, the message and the carrying channel are gone (optionally after the sending sim-process crashed); non-trivial = at least one region of non-zero length that is not a multiple of 8; distinct = distinct (case, schedule hash)"
+        "case = 1..8 regions per message, each from_bytes(random contents) or from_byte(fill, len), lengths dense around 0, 1, 7/8/9, page-1/page/page+1, 2 pages +-1 plus random up to 256 KiB (quick) / 32 MiB (thorough), cloned 0..3 times before sending, in random order, optionally next to an endpoint and a multi-packet data part; received by a thread or a sim-process; one case in eight is the forked-child family (regions created, cloned and queued in a message, then a real fork(): the child - a copy of the library's statics and mappings, running outside the simulation - compares the inherited regions, receives the queued message, creates regions of its own, parked inside its first creation while the parent creates more); contents compared in the creator, every clone, the receiver, and again after the sender's copies, the message and the carrying channel are gone (optionally after the sending sim-process crashed); non-trivial = at least one region of non-zero length that is not a multiple of 8; distinct = distinct (case, schedule hash)"
     }
     fn gen(&self, seed: u64, idx: u64, tier: Tier, variant: &str) -> Value {
         let mut r = Rng::stream(seed, idx.wrapping_mul(2654435761).wrapping_add(0xC05));
         let mut sim = sim_json(&mut r, seed ^ idx.wrapping_mul(0x9E37));
+        if variant != "inproc" && idx % 8 == 5 {
+            // forked-child family: regions created before a real fork(), inherited and received by
+            // the child, and created on both sides of the fork at overlapping instants
+            let page = 4096u64;
+            let mut mk = |r: &mut Rng| {
+                let len = *r.pick(&[0u64, 1, 9, page - 1, page, page + 1, 2 * page + 1, 70_001]);
+                if r.chance(1, 2) { json!({"len": len, "fill": r.range(0, 255), "clones": 0}) } else { json!({"len": len, "seed": r.next() >> 8, "clones": 0}) }
+            };
+            let pre: Vec<Value> = (0..r.range(1, 4)).map(|_| mk(&mut r)).collect();
+            let child: Vec<Value> = (0..r.range(1, 3)).map(|_| mk(&mut r)).collect();
+            let post: Vec<Value> = (0..r.range(1, 3)).map(|_| mk(&mut r)).collect();
+            return json!({"sim": sim, "regs": pre, "fork": {"child": child, "post": post, "hold": r.chance(3, 4)}});
+        }
         if variant != "inproc" {
             sim["faults"] = json!(gen_env_faults(&mut r, 120));
         }
@@ -97,6 +228,9 @@ impl Scenario for C05S {
                "receiver_proc": variant != "inproc" && r.chance(1, 2), "sender_proc_crash": crash})
     }
     fn run(&self, p: &Value) -> Outcome {
+        if p["fork"].is_object() && !cfg!(feature = "inproc") {
+            return run_fork(p);
+        }
         let mut out = Outcome::default();
         start_sim(p);
         let specs: Vec<Value> = p["regs"].as_array().cloned().unwrap_or_default().into_iter().take(8).collect();
